@@ -99,14 +99,11 @@ Definition call_class (c : call) : N :=
 
 (* ---- calls with a subcommand (Lib/C04Base.v scall) ---------------------------------------------------
    The modelled space: parse_args with the subcommand token on the command line; the flattened call
-   (keys of both levels) is well-formed; the parent's default config files, environment config and
-   environment variables and the options before the token address the parent's own keys; no own key
-   lives below NAME; a `--cfg` document of the parent may carry plain assignments (no "key+") for the
-   subcommand's keys. *)
-Definition starts_with (nm : name) (k : tpath) : bool :=
-  match k with a :: _ => name_eqb a nm | [] => false end.
-
-Definition parent_doc_ok (nm : name) (d : doc) : bool :=
+   (keys of both levels) is well-formed; no own key lives below NAME; the parent's environment variables
+   and the options before the token address the parent's own keys; default config files and the
+   environment config of the parent may carry PLAIN assignments (no "key+") for the subcommand's keys
+   (section NAME:); a `--cfg` document of the parent may carry plain assignments and appends for them. *)
+Definition sets_only_below (nm : name) (d : doc) : bool :=
   forallb (fun a => negb (starts_with nm (fst a)) || match snd a with Set_ _ => true | _ => false end) d.
 
 Definition wf_scall (sc : scall) : bool :=
@@ -115,19 +112,68 @@ Definition wf_scall (sc : scall) : bool :=
   let nm := s_name sc in
   wf_call (flat_call sc)
   && forallb (fun d => negb (starts_with nm (d_key d))) pown
-  && forallb (fun m => forallb (fun nd => wf_doc pown (snd nd)) m) (c_patterns c)
-  && match c_envcfg c with Some d => wf_doc pown d | None => true end
+  && forallb (fun m => forallb (fun nd => sets_only_below nm (snd nd)) m) (c_patterns c)
+  && match c_envcfg c with Some d => sets_only_below nm d | None => true end
   && wf_doc pown (map (fun kv => (fst kv, Set_ (snd kv))) (c_envvars c))
   && match c_entry c with
      | EArgs argv =>
          forallb (fun a => match a with
                            | AAsg x => match find_decl pown (fst x) with Some _ => true | None => false end
-                           | ACfg d => parent_doc_ok nm d
+                           | ACfg d => true
                            end) argv
      | _ => false
      end.
 
-(* class 2: a call with a subcommand — inside the modelled space, judged case by case against the
-   documented fold (Spec flat_call); the precedence theorem does not (yet) cover pipeline_sub *)
-Definition scall_class (sc : scall) : N :=
-  if negb (wf_scall sc) then 9%N else if envcfg_append (flat_call sc) then 1%N else 2%N.
+(* ---- finding classes of calls with a subcommand ------------------------------------------------------- *)
+Definition mentions (k : tpath) (d : doc) : bool := existsb (fun a => path_eqb (fst a) k) d.
+
+(* class 3: the environment is a source, the subcommand has an environment variable for a key, and an
+   EARLIER source of the parent (a default config file or the environment config) assigns that key in
+   its NAME: section.  The subcommand's variables are only read inside subparser.parse_args, below the
+   branch NAME built so far, so the earlier source wins. *)
+Definition subenv_shadowed (sc : scall) : bool :=
+  let c := s_parent sc in
+  let nm := s_name sc in
+  env_is_source c
+  && existsb (fun kv =>
+                existsb (mentions (nm :: fst kv)) (default_files c)
+                || match c_envcfg c with Some d => mentions (nm :: fst kv) d | None => false end)
+             (s_subenv sc).
+
+(* class 4: the first non-blank default config file has no NAME: section (get_defaults runs
+   _parse_common on it, which insists on a subcommand) *)
+Definition first_file (c : call) : option doc :=
+  match filter (fun d : doc => match d with [] => false | _ => true end) (default_files c) with
+  | d :: _ => Some d
+  | [] => None
+  end.
+
+Definition file_without_section (sc : scall) : bool :=
+  match first_file (s_parent sc) with
+  | Some d => negb (existsb (fun a => starts_with (s_name sc) (fst a)) d)
+  | None => false
+  end.
+
+(* class 5: a `--cfg` document of the parent appends ("key+") to a key of the subcommand: the list
+   built so far is looked up under the subcommand-relative name at the PARENT's level *)
+Definition section_append (sc : scall) : bool :=
+  match c_entry (s_parent sc) with
+  | EArgs argv =>
+      existsb (fun a => match a with
+                        | ACfg d => negb (sets_only_below (s_name sc) d)
+                        | AAsg _ => false
+                        end) argv
+  | _ => false
+  end.
+
+(* class 2: a call with a subcommand inside the modelled space and outside the finding classes: judged
+   case by case against the documented fold (Spec flat_call); C04_sub_precedence_partial covers part of it *)
+Definition scall_class_fx (fixed_append fixed_section : bool) (sc : scall) : N :=
+  if negb (wf_scall sc) then 9%N
+  else if envcfg_append (flat_call sc) then 1%N
+  else if negb fixed_section && file_without_section sc then 4%N
+  else if section_append sc then 5%N      (* stays a finding with the partial repair fx_append, see notes/C04.md *)
+  else if subenv_shadowed sc then 3%N
+  else 2%N.
+
+Definition scall_class : scall -> N := scall_class_fx false false.
